@@ -839,6 +839,51 @@ fn main() {
                 }
             }
         }
+        // crafted: CHAR(n) with a huge n read from the file — padding the first row to n characters
+        // would allocate n bytes for a file of ~100 bytes
+        {
+            let mut db = Database::new();
+            let cols = vec![vibesql_catalog::ColumnSchema { name: "C".into(), data_type: D::Character { length: 6 }, nullable: true, default_value: None }];
+            let _ = db.create_table(vibesql_catalog::TableSchema::new("HC".to_string(), cols));
+            let _ = db.insert_row("HC", vibesql_storage::Row::new(vec![V::Character("ab".into())]));
+            let p = cx_dir_tmp("HC");
+            if db.save_binary(&p).is_ok() {
+                let bytes = std::fs::read(&p).unwrap_or_default();
+                let _ = std::fs::remove_file(&p);
+                if let Some(pos) = bytes.windows(7).position(|w| w == b"CHAR(6)") {
+                    for n in ["4000000000", "18446744073709551615", "1099511627776", "70000"] {
+                        let new = format!("CHAR({})", n);
+                        let b = splice(&bytes, pos - 4, pos, 7, new.as_bytes(), None);
+                        cx.n += 1;
+                        let path = cx.dir.join("hugechar.vbsql");
+                        std::fs::write(&path, &b).unwrap();
+                        let out = cx.w.load("binary", &path);
+                        rep.case(&format!("crafted huge char {}", n), true);
+                        rep.count(&format!("binary_crafted_huge_char_{}", out.class()));
+                        if !out.clean() {
+                            rep.fail(FailKind::Oracle, None, &format!("load_binary: {} on a {}-byte file whose column type is CHAR({}) with one row", out.class(), b.len(), n), &format!("file bytes (hex): {}\noutcome: {:?}", hex(&b), out));
+                        }
+                    }
+                } else {
+                    rep.fail(FailKind::Oracle, None, "CHAR(6) type text not found in the saved fixture", &hex(&bytes));
+                }
+            }
+        }
+        // crafted: JSON file with a NAME column holding > 128 bytes of multi-byte text
+        {
+            let mut db = Database::new();
+            let cols = vec![vibesql_catalog::ColumnSchema { name: "N".into(), data_type: D::Name, nullable: true, default_value: None }];
+            let _ = db.create_table(vibesql_catalog::TableSchema::new("NM".to_string(), cols));
+            let _ = db.insert_row("NM", vibesql_storage::Row::new(vec![V::Varchar("MARKER".into())]));
+            let p = cx.dir.join("name.json");
+            if db.save_json(&p).is_ok() {
+                let json = std::fs::read_to_string(&p).unwrap_or_default();
+                for long in ["é".repeat(100), format!("a{}", "漢".repeat(60)), "x".repeat(200), "😀".repeat(33)] {
+                    let j = json.replace("MARKER", &long);
+                    other_case(&mut cx, &mut rep, "json", "json", "crafted", j.as_bytes(), "NAME column with a value longer than 128 bytes of multi-byte text");
+                }
+            }
+        }
         // the same dictionary through the JSON and SQL-dump loaders (their own type parsers), oracle only
         {
             let mut db = Db::new();
